@@ -193,6 +193,12 @@ def boundary_cases():
         out.append({"kind": "tie", "p": p, "b": TARGET, "stream": stream, "setup": setup_for(stream, populate=False),
                     "domain": True})
     out.append({"kind": "empty", "p": 1, "b": TARGET, "stream": [], "setup": setup_for([]), "domain": True})
+    # events that last days: a heartbeat carrying a duration beyond one day, and merges across days under a long pulsetime
+    DAY = 86_400_000_000
+    for p in (0, 3 * 86400):
+        stream = [[[], BASE, DAY + 1_500_000, 1], [[], BASE + 2 * DAY, 0, 1], [[], BASE + 4 * DAY + 250_000, 3 * DAY, 1],
+                  [[], BASE + 9 * DAY, 0, 2], [[], BASE + 11 * DAY, 35 * DAY + 1000, 2]]
+        out.append({"kind": "days", "p": p, "b": TARGET, "stream": stream, "setup": setup_for(stream), "domain": True})
     return out
 
 
@@ -470,7 +476,10 @@ def main(argv=None):
 
     runs = []
     life_runs = []
-    order = sorted(range(len(cases)), key=lambda i: cases[i]["kind"] == "lifecycle-large")   # findings on short inputs first
+    deferred = []       # lifecycle findings that did not reproduce on their own in a fresh process: reported after the others
+    # lifecycle findings are confirmed (and shrunk) on their own in a fresh process, so they are self-contained; a finding
+    # of the single-stream cases may owe itself to what earlier cases left behind in its worker process; long inputs last
+    order = sorted(range(len(cases)), key=lambda i: {"lifecycle": 0, "lifecycle-large": 2}.get(cases[i]["kind"], 1))
     for case, res in ((cases[i], results[i]) for i in order):
         if case["kind"].startswith("lifecycle"):
             ck.count(case["kind"])
@@ -491,14 +500,16 @@ def main(argv=None):
                                                                  len(ph["stream"])] for ph in case["phases"]]],
                              nontrivial=merged_after_recreate or len(case["stores"]) > 1)
                 bad = oracle_lifecycle(case, r, be, reduce_of)
-                if bad:
+                if bad and len(ck.violations) + len(deferred) >= 20:
+                    ck.count("lifecycle:failing-beyond-the-20-reported")
+                elif bad:
                     sig = bad[0]
                     alone = replay_fails(case, be, sig)
                     small = case
                     if alone and len(ck.violations) < 3 and case["kind"] == "lifecycle":
                         small = shrink_lifecycle(case, be, lambda c: replay_fails(c, be, sig))
                         bad = oracle_lifecycle(small, fresh.run((small, be)), be, reduce_of) or bad
-                    ck.failing_input(f"C07:{r['phases'][min(bad[2], len(r['phases']) - 1)]['backend']}:{sig}", bad[1],
+                    (ck.failing_input if alone else lambda *a: deferred.append(a))(f"C07:{r['phases'][min(bad[2], len(r['phases']) - 1)]['backend']}:{sig}", bad[1],
                                      {"backend": be, "storage_objects": [be if s == "X" else c07_life.partner(be, s == "X2") for s in small["stores"]],
                                       "failing_phase": bad[2],
                                       "phases": [{"storage_object": ph["st"], "operations_issued_through": ph["via"],
@@ -543,6 +554,9 @@ def main(argv=None):
         if len(ck.samples) < 4 and dom and len(case["stream"]) >= 4 and "merge" in res["sqlite"]["branches"]:
             ck.sample({"pulsetime_s": case["p"], "stream_us_rel": rel(case["stream"]),
                        "branches": res["sqlite"]["branches"], "sqlite_final_newest_first": res["sqlite"]["final"]})
+
+    for a in deferred:
+        ck.failing_input(*a)
 
     if have_driver:
         wire = [sx([sh.BACKEND_CODE[be], UNIV, case["setup"], case["b"], pulse_us(case["p"]), case["stream"]])
